@@ -544,6 +544,7 @@ func (h *Harness) run() {
 	s := newSim(h.tape, h.opts.Render)
 	h.s = s
 	s.stalling = h.sc.Clock == "stalling"
+	s.Policy = h.sc.Policy
 	cbp.VerifHook = s.Hook
 	runtime.SetVerifSelectRand(s.selectRand)
 	defer func() {
